@@ -215,6 +215,16 @@ func newGoType(typ reflect.Type) (*GoType, error) {
 	verifAccess(&goTypeRegistry, "goTypeRegistry", true)
 	goTypeRegistry[typ] = goType
 
+	// A type that cannot be completed must not stay registered half-built: the
+	// next request for it would be answered with a type that has no attributes
+	complete := false
+	defer func() {
+		if !complete {
+			delete(goTypeRegistry, typ)
+			delete(goTypeRegistry, indirectType)
+		}
+	}()
+
 	// Register the indirect type as well (recursive call!)
 	indirectGoType, err := newGoType(indirectType)
 	if err != nil {
@@ -266,6 +276,7 @@ func newGoType(typ reflect.Type) (*GoType, error) {
 		goType.attributeNames = append(goType.attributeNames, attrName)
 	}
 	sort.Strings(goType.attributeNames)
+	complete = true
 	return goType, nil
 }
 
